@@ -72,6 +72,9 @@ def descriptions(tier):
             # zero extension fields (only legal when a signal block is present)
             if nsig:
                 out.append(("impl", [("struct", "B0", (("b", 0, U(8), None, None), ("c", 1, U(8), None, None))), ("impl", "can", "B0", rename, (), sigs)]))
+    # extension-field keys named like attributes of the nodes themselves (meta, name, type, fields, signals ...)
+    for key in ("meta", "name", "type", "fields", "signals", "protocol", "version"):
+        out.append(("impl", [("struct", "B0", (("b", 0, U(8), None, None), ("c", 1, U(8), None, None))), ("impl", "can", "B0", None, (("id", 10), (key, "powertrain")), (("b", ((key, [1, 2]), ("scale", 2))),)), ("device", "ecu", ((key, 7), ("node", 3)))]))
     # extension fields written after / between the signal blocks
     for layout in ("signals-first", "interleaved"):
         for rename in (None, "Ren"):
